@@ -10,8 +10,7 @@ use std::collections::BinaryHeap;
 use std::rc::Rc;
 
 /// checks everything `divide_segment(se_l, p)` promises, given the segment's original endpoints
-fn check_division<F: Float>(sl: &Rc<SweepEvent<F>>, sr: &Rc<SweepEvent<F>>, pl: Coord<F>, pr: Coord<F>, p: Coord<F>, subject: bool, cid: u32, q: BinaryHeap<Rc<SweepEvent<F>>>) -> bool {
-    let v = q.into_vec();
+fn check_division<F: Float>(sl: &Rc<SweepEvent<F>>, sr: &Rc<SweepEvent<F>>, pl: Coord<F>, pr: Coord<F>, p: Coord<F>, subject: bool, cid: u32, v: Vec<Rc<SweepEvent<F>>>) -> bool {
     assert!(v.len() == 2, "exactly the two new events are pushed");
     let r_new = sl.get_other_event().unwrap();
     let l_new = sr.get_other_event().unwrap();
@@ -61,7 +60,7 @@ fn divide_body<F: Float>() {
     let sg: Seg<F> = s.build(cid);
     let mut q = BinaryHeap::new();
     divide_segment(&sg.l, p.c(), &mut q);
-    let swapped = check_division(&sg.l, &sg.r, s.l.c(), s.r.c(), p.c(), s.subject, cid, q);
+    let swapped = check_division(&sg.l, &sg.r, s.l.c(), s.r.c(), p.c(), s.subject, cid, q.into_vec());
     assert!(!swapped, "a division point on the segment never needs the left/right swap");
     kani::cover!(s.vertical(), "vertical segment divided");
     kani::cover!(!s.vertical() && s.l.y != s.r.y, "slanted segment divided");
@@ -107,10 +106,17 @@ fn divide_ulp_body<F: Float>() {
     let subject: bool = kani::any();
     let sg = seg_c(pl, pr, subject, 1);
     let mut q = BinaryHeap::new();
+    unsafe {
+        NPUSHED = 0;
+    }
     divide_segment(&sg.l, p, &mut q);
     kani::cover!(p.x == pl.x && p.y < pl.y, "corner case 1: requested point exactly below the left endpoint");
     kani::cover!(p.x == pr.x && p.y > pr.y, "corner case 2: vertical remainder, roles swapped");
-    let swapped = check_division(&sg.l, &sg.r, pl, pr, p, subject, 1, q);
+    // the heap is environment here (push recorded): what is pushed is the subject
+    assert!(unsafe { NPUSHED } == 2, "exactly the two new events are pushed");
+    let v = vec![pushed::<F>(0), pushed::<F>(1)];
+    std::mem::forget(q);
+    let swapped = check_division(&sg.l, &sg.r, pl, pr, p, subject, 1, v);
     assert!(swapped == (p.x == pr.x && p.y > pr.y), "roles are swapped exactly for a vertical remainder above the right endpoint");
     std::mem::forget(sg);
 }
@@ -123,6 +129,7 @@ macro_rules! divide_ulp_h {
         #[kani::proof]
         #[kani::unwind(5)]
         #[kani::stub(robust::orient2d, super::common::orient2d_stub)]
+        #[kani::stub(std::collections::BinaryHeap::push, super::common::heap_push_record)]
         fn $name() {
             divide_ulp_body::<$f>()
         }
